@@ -22,7 +22,8 @@ and `unicodedata.category` for the category table; disagreement = MachineryError
 
 Outside (not specified, excluded from the vectors): which substring is matched (greedy/lazy extents);
 Unicode category membership beyond the nine characters; case-insensitive matching beyond a/A and the
-effect of flag i on escapes inside classes; position of an unescaped '-' in a class under XSD 1.1;
+effect of flag i on escapes and on RANGES inside classes (a range contains the case partners of
+letters that are not alphabet members); position of an unescaped '-' in a class under XSD 1.1;
 Python-only syntax met through flag x ('#' comments).
 """
 from __future__ import annotations
@@ -303,8 +304,16 @@ def class_features(cl, ver: str, mode: str, den, obs, pinned) -> dict:
         f['outcome'] = ':'.join(map(str, obs))
     else:
         f['outcome'] = 'extra' if obs > den else 'missing' if obs < den else 'wrong'
-        f['diff'] = names(obs ^ den)
-        f['pinned_model'] = 'agrees' if (pinned is not None and obs == pinned and pinned != den) else 'differs'
+        astral = frozenset({9})
+        # XSD 1.1 \\i \\c: is the astral character the only disagreement?
+        f['only_astral'] = (obs ^ den) == astral
+        if pinned is not None and pinned != den and obs == pinned:
+            f['pinned_model'] = 'agrees'          # the as-implemented model of RegexClass.tla predicts exactly this set
+        elif pinned is not None and ver == '1.1' and f['esc_ic'] and (pinned - astral) != (den - astral) \
+                and (obs - astral) == (pinned - astral):
+            f['pinned_model'] = 'agrees_modulo_astral'
+        else:
+            f['pinned_model'] = 'differs'
     return f
 
 
@@ -381,7 +390,9 @@ CLASS_CONFIGS = {
                                ItemNames3={"a", "5", "D", "S"}, SubNames=set(), MaxItems=3, MaxSubItems=1), 16, 4),
         ('items11', '1.1', dict(ItemNames={"a", "AS", "5", "i", "I", "c", "C", "d", "D", "w"}, ItemNames3=set(),
                                 SubNames=set(), MaxItems=2, MaxSubItems=1), 8, 2),
-        ('sub', '1.0', dict(ItemNames={"a", "5", "AS", "a-b", "d", "D", "S", "w"}, ItemNames3=set(),
+        # (large positive sets in the main group are avoided where the subtracted class has a negated part:
+        #  CharacterClass.__isub__ then intersects code point by code point, [\\w-[\\D]] takes seconds)
+        ('sub', '1.0', dict(ItemNames={"a", "5", "AS", "a-b", "d", "D", "S"}, ItemNames3=set(),
                             SubNames={"a", "5", "d", "D", "S"}, MaxItems=2, MaxSubItems=2), 64, 8),
     ],
     'thorough': [
@@ -391,10 +402,10 @@ CLASS_CONFIGS = {
                               SubNames=set(), MaxItems=3, MaxSubItems=1), 16, 4),
         ('items11', '1.1', dict(ItemNames=ALL_ITEMS, ItemNames3={"a", "AS", "i", "I", "c", "C", "D", "d"},
                                 SubNames=set(), MaxItems=3, MaxSubItems=1), 16, 4),
-        ('sub', '1.0', dict(ItemNames={"a", "b", "5", "NL", "AS", "HY", "a-b", "5-A", "d", "D", "S", "W", "w", "PL", "i", "C"},
+        ('sub', '1.0', dict(ItemNames={"a", "b", "5", "NL", "AS", "HY", "a-b", "5-A", "d", "D", "S", "W", "s", "pLu", "I", "C"},
                             ItemNames3=set(), SubNames={"a", "5", "NL", "d", "D", "S", "W", "a-b", "PL"},
                             MaxItems=2, MaxSubItems=2), 64, 8),
-        ('sub11', '1.1', dict(ItemNames={"a", "AS", "5", "d", "D", "i", "I", "c", "C", "w"}, ItemNames3=set(),
+        ('sub11', '1.1', dict(ItemNames={"a", "AS", "5", "d", "D", "I", "C", "s"}, ItemNames3=set(),
                               SubNames={"a", "AS", "D", "i", "C"}, MaxItems=2, MaxSubItems=2), 32, 8),
     ],
 }
@@ -492,7 +503,8 @@ def ast_worker(job):
         else:
             e, o = show(exp - obs), show(obs - exp)
             case.update(should_match=e, should_not_match=o)
-        fails.append((atom_tags(r), depth(r), mode, which, d, case, e, o))
+        qa = any(x['t'] in ('star', 'plus', 'opt', 'rep') and x['r']['t'] in ('bol', 'eol') for x in walk(r))
+        fails.append((atom_tags(r), depth(r), mode, which, d, case, e, o, qa))
 
     for r, full, found in states:
         types = node_types(r)
@@ -590,7 +602,7 @@ AST_CONFIGS = {
         ('dotall', 's', '1.0', dict(AtomNames={"any", "NL", "a", "c_na", "S", "bol", "eol"}, OperandNames={"any", "NL", "a"},
                                     OperandDepth=0, Unaries={"star", "plus", "opt", "rep12", "starL"}, Unaries2=set(),
                                     Binaries={"cat", "alt"}, MaxDepth=1, SubjChars={1, 7, 8}, MaxLen=3), 8, True),
-        ('icase', 'i', '1.0', dict(AtomNames={"a", "A", "b", "5", "_", "c_A", "c_nA", "c_r5", "c_nr5", "c_ab", "c_rg", "c_na",
+        ('icase', 'i', '1.0', dict(AtomNames={"a", "A", "b", "5", "_", "c_A", "c_nA", "c_ab", "c_na", "c_nsn",
                                               "pLu", "PLu", "pLl", "any"},
                                    OperandNames={"a", "A"}, OperandDepth=0, Unaries={"star", "dup", "rep2", "opt"},
                                    Unaries2=set(), Binaries={"cat", "alt"}, MaxDepth=1,
@@ -611,7 +623,7 @@ AST_CONFIGS['thorough'] = AST_CONFIGS['quick'][2:] + [
     ('deep', '', '1.0', dict(AtomNames={"a", "b", "any", "d", "c_na", "NL"}, OperandNames={"a", "b", "any", "d", "c_na", "NL"},
                              OperandDepth=1, Unaries=U5 | {"grp", "starL"}, Unaries2=U5 | {"grp", "starL"},
                              Binaries={"cat", "alt"}, MaxDepth=2, SubjChars={1, 4, 7, 8}, MaxLen=3), 256, False),
-    ('deep-i', 'i', '1.0', dict(AtomNames={"a", "A", "c_nA", "c_r5"}, OperandNames={"a", "A", "c_nA", "c_r5"},
+    ('deep-i', 'i', '1.0', dict(AtomNames={"a", "A", "c_nA", "c_ab"}, OperandNames={"a", "A", "c_nA", "c_ab"},
                                 OperandDepth=1, Unaries={"star", "opt", "dup"}, Unaries2={"star", "opt", "dup"},
                                 Binaries={"cat", "alt"}, MaxDepth=2, SubjChars={5, 7, 8}, MaxLen=3), 64, False),
     ('deep-m', 'm', '1.0', dict(AtomNames={"a", "NL", "bol", "eol"}, OperandNames={"a", "NL", "bol", "eol"},
@@ -648,10 +660,11 @@ def run_asts(chk: core.Check, totals: dict) -> None:
         bad_atoms = {(f[0][0], f[2]) for f in raw if f[1] == 0 and len(f[0]) == 1}
         bad_any_mode = {a for a, _ in bad_atoms}
         bag = Bag()
-        for tags, dp, mode, which, d, case, e, o in raw:
+        for tags, dp, mode, which, d, case, e, o, qa in raw:
             blame = next((t for t in tags if (t, mode) in bad_atoms), None) or \
                 next((t for t in tags if t in bad_any_mode), 'structure')
-            feat = dict(kind='ast', flag=flag, xsd_version=ver, mode=mode, which=which, blame=blame, direction=d)
+            feat = dict(kind='ast', flag=flag, xsd_version=ver, mode=mode, which=which, blame=blame, direction=d,
+                        quantified_anchor=qa)
             bag.fail(feat, case, e, o, f"{case['pattern']!r} flag={flag!r} {mode}/{which}: should match {e}, "
                                        f"should not match {o}" if not isinstance(o, list) or d in
                      ('accepts_too_much', 'rejects_too_much', 'both') else f"{case['pattern']!r} {mode}: {o}")
@@ -1053,10 +1066,15 @@ def replay(rec: dict) -> int:
 def run(chk: core.Check) -> None:
     core.setup_repo_path()
     totals: dict = {}
-    run_classes(chk, totals)
-    run_asts(chk, totals)
-    run_fns(chk, totals)
-    run_syntax(chk, totals)
+    parts = os.environ.get('C12_PARTS', 'class,ast,fns,syntax').split(',')      # development aid only
+    if 'class' in parts:
+        run_classes(chk, totals)
+    if 'ast' in parts:
+        run_asts(chk, totals)
+    if 'fns' in parts:
+        run_fns(chk, totals)
+    if 'syntax' in parts:
+        run_syntax(chk, totals)
     chk.coverage['details'] = {k: v for k, v in totals.items() if k != 'oracle_examples'}
     if totals.get('oracle_disagreements'):
         raise tla.MachineryError(f"specification and second oracle disagree on {totals['oracle_disagreements']} "
